@@ -11,7 +11,9 @@ require (
 	github.com/gorilla/websocket v1.4.2 // indirect
 	github.com/hashicorp/errwrap v1.0.0 // indirect
 	github.com/hashicorp/go-multierror v1.1.0 // indirect
+	github.com/mtraver/base91 v1.0.0 // indirect
 	github.com/pkg/errors v0.9.1 // indirect
+	go.chromium.org/luci v0.0.0-20201018155654-3aac261c05da // indirect
 	golang.org/x/sys v0.0.0-20200808120158-1030fc2bf1d9 // indirect
 )
 
